@@ -20,11 +20,11 @@ def _gen_session_cfg(rng, idx):
     for i in range(n):
         qt = QT[(idx + i) % len(QT)] if idx < 3 * len(QT) else rng.choice(QT)
         if qt in (proto.T_NULL, proto.T_PRIVATE):
-            down = rng.choice([None, b"r"])
+            down = rng.choice([None, "r"])
         elif qt == proto.T_TXT:
-            down = rng.choice([None, b"t", b"s", b"u", b"v", b"r"])
+            down = rng.choice([None, "t", "s", "u", "v", "r"])
         else:
-            down = rng.choice([None, b"t", b"s", b"u", b"v"])
+            down = rng.choice([None, "t", "s", "u", "v"])
         big = qt in (proto.T_NULL, proto.T_PRIVATE, proto.T_TXT, proto.T_SRV, proto.T_MX)
         frag = rng.choice(FRAGS if big else [2, 3, 7, 50, 100, 120]) if rng.random() < 0.8 else rng.randint(2, 2000 if big else 130)
         clients.append({"qtype": qt, "down": down, "up": rng.choice(["Base32", "Base64", "Base64u", "Base128"]),
